@@ -4,7 +4,7 @@ import math
 
 from pbt import gen
 from pbt.engine import Outcome, Violation
-from pbt.harness import Session, iter_tree, user_delta
+from pbt.harness import Unattributable, Session, iter_tree, user_delta
 
 PROP = "C08"
 RULE = (
@@ -184,6 +184,8 @@ def check_case(case):
             if nontrivial:
                 classes.append("expansion-among-distinct-values")
             return Outcome(nontrivial=nontrivial, classes=classes, rounds=T)
+    except Unattributable:
+        return Outcome(aborted="point-matches-several-cells", classes=classes)
     except Violation as v:
         return Outcome(violation=v.as_dict(), classes=classes, rounds=v.round or 0)
 
